@@ -55,8 +55,9 @@ Definition dev_of_cdev (c : cdev) : dev :=
   let '(k, p, i) := c in {| d_key := k; d_pow := sparse_expand slots p; d_imp := sparse_expand slots i |}.
 
 (* position-weighted checksum modulo 2^64 of a list of 64-bit values *)
+Definition mask64 : Z := 18446744073709551615.    (* land with 2^64-1 = mod 2^64, much cheaper *)
 Fixpoint wsum (i : Z) (l : list Z) (acc : Z) : Z :=
-  match l with [] => acc | x :: l' => wsum (i + 1) l' ((acc + i * x) mod 2^64) end.
+  match l with [] => acc | x :: l' => wsum (i + 1) l' (Z.land (acc + i * x) mask64) end.
 
 (* canonical projection of a decoded statistics record *)
 Inductive sobs :=
@@ -91,6 +92,9 @@ Definition aserver_of (e : aserver_t) : aserver :=
   let '(k, bn, loc, h, t, u, sg) := e in
   {| as_key := k; as_banned := bn; as_loc := loc; as_http := h; as_tcp := t; as_udp := u; as_sig := sg |}.
 
+Definition aserver_eqb (a b : aserver) : bool :=
+  bytes_eqb (as_key a) (as_key b) && Bool.eqb (as_banned a) (as_banned b) && bytes_eqb (as_loc a) (as_loc b) &&
+  (as_http a =? as_http b) && (as_tcp a =? as_tcp b) && (as_udp a =? as_udp b) && bytes_eqb (as_sig a) (as_sig b).
 Definition cserver_eqb (a b : cserver) : bool :=
   Bool.eqb (cs_banned a) (cs_banned b) && bytes_eqb (cs_loc a) (cs_loc b) &&
   (cs_http a =? cs_http b) && (cs_tcp a =? cs_tcp b) && (cs_udp a =? cs_udp b).
@@ -146,10 +150,19 @@ Definition ccase_ok (c : ccase) : bool :=
   | CAuthDec b o => opt_eqb auth_eqb (auth_decode b) o
   | CReg k sb => bytes_eqb (reg_signing_bytes k) sb
   | CAServer s ser sb =>
-      bytes_eqb (aserver_serialize (aserver_of s)) ser && bytes_eqb (aserver_signing_bytes (aserver_of s)) sb
+      bytes_eqb (aserver_serialize (aserver_of s)) ser && bytes_eqb (aserver_signing_bytes (aserver_of s)) sb &&
+      (* within the stated domain the REAL bytes decode (reference decoder) to the value *)
+      (if (Nat.leb (length (as_loc (aserver_of s))) 255)
+       then opt_eqb aserver_eqb (aserver_decode ser) (Some (aserver_of s)) else true)
   | CMigration e g id l sg ser sb =>
       let m := {| m_equip := e; m_newgca := g; m_newid := id; m_servers := map aserver_of l; m_sig := sg |} in
-      bytes_eqb (migration_serialize m) ser && bytes_eqb (migration_signing_bytes m) sb
+      bytes_eqb (migration_serialize m) ser && bytes_eqb (migration_signing_bytes m) sb &&
+      match migration_decode ser with
+      | DOk m' n => bytes_eqb (m_equip m') e && bytes_eqb (m_newgca m') g && (m_newid m' =? id) &&
+                    list_eqb aserver_eqb (m_servers m') (map aserver_of l) && bytes_eqb (m_sig m') sg &&
+                    Nat.eqb n (length ser)
+      | _ => false
+      end
   | CSMapEnc l o => opt_eqb bytes_eqb (smap_encode (map centry_of l)) o
   | CSMapDec b o =>
       match smap_decode b, o with
@@ -158,9 +171,11 @@ Definition ccase_ok (c : ccase) : bool :=
       | _, _ => false
       end
   | CStats devs tso sg ser sb =>
+      (* stats_serialize x and stats_signing_bytes x with their common part evaluated once *)
       let x := stats_of devs tso sg in
-      bytes_eqb (stats_serialize x) ser &&
-      match sb with Some s => bytes_eqb (stats_signing_bytes x) s | None => true end
+      let body := stats_body x in
+      bytes_eqb (body ++ pad 64 (s_sig x)) ser &&
+      match sb with Some s => bytes_eqb (ascii_bytes prefix_stats ++ body) s | None => true end
   | CStream b ext cuts all =>
       forallb (fun co => sobs_ok (stats_stream_decode run_memlimit (firstn (Z.to_nat (fst co)) (b ++ ext))) (snd co)) cuts &&
       forallb (all_ok (stats_stream_all (S (length b)) run_memlimit b)) all
